@@ -573,3 +573,19 @@ def run(repo, rep, tier):  # noqa: F811 -- round-6 remedies (core/round6.py)
 _ADDR6C = ' R17.13: type_name(..., short=True) feeds messages only, never a bound name.'
 EXPLANATION += _ADDR6C
 LEVEL_TEXT += _ADDR6C
+
+
+_run_before_r6c = run
+
+
+def run(repo, rep, tier):  # noqa: F811 -- round-6 remedies, batch 3
+    _run_before_r6c(repo, rep, tier)
+    if getattr(rep, "borrowed", False):
+        return
+    from ..core import round6 as _r6c
+    _r6c.no_memo_across_literal_values(repo, rep, "R17.14")
+
+
+_ADDR6D = ' R17.14: the Literal packer / unpacker render every literal value from its own type (no memo across iterations).'
+EXPLANATION += _ADDR6D
+LEVEL_TEXT += _ADDR6D
